@@ -1372,6 +1372,85 @@ func c20r20(c *Ctx, r *Report) {
 	r.floor("calls of printPreviewDelayed in the render loop", calls, 1)
 }
 
+// c17r31: the numeric options with an optional value (--gap[=N], --multi[=MAX], --sort[=N]) are counts; their
+// siblings with a mandatory value (--tabstop, --scroll-off, --min-height, --header-lines, --tail …) reject a
+// negative number with a message, and so does this helper (D113: it passed any integer through: `--sort=-1`
+// silently switched sorting off, `--multi=-3` silently switched multi-selection off, `--gap=-5` meant 0).
+func c17r31(c *Ctx, r *Report) {
+	l := c.L
+	r.rule("C17-R31", "C (an optional numeric value is range-checked like the mandatory ones)", "P1",
+		"in the closure of parseOptions that converts an optional numeric value with atoi, every return of the converted number is control dependent on a comparison of that number with a constant",
+		"a negative count is accepted without a message and means something else than what was written (--sort=-1 disables sorting, --multi=-3 disables multi-selection)")
+	fn := l.Fn("fzf", "parseOptions")
+	atoi := l.Fn("fzf", "atoi")
+	if fn == nil || atoi == nil {
+		r.unest("anchors", token.NoPos, nil, "anchors parseOptions / atoi", "cannot resolve")
+		return
+	}
+	cc := cdCache{}
+	n := 0
+	for _, g := range withClosures(fn) {
+		if g == fn {
+			continue
+		}
+		var nums []ssa.Value
+		eachInstr(g, func(in ssa.Instruction) {
+			if ex, ok := in.(*ssa.Extract); ok && ex.Index == 0 {
+				if call, ok := ex.Tuple.(*ssa.Call); ok && call.Common().StaticCallee() == atoi {
+					nums = append(nums, ex)
+				}
+			}
+		})
+		if len(nums) == 0 {
+			continue
+		}
+		// only the helper of the optional form: its one parameter is the default NUMBER (the helper for a mandatory
+		// value takes the error message, and its callers check the sign themselves, each with its own message)
+		if len(g.Params) != 1 {
+			continue
+		}
+		if bt, ok := g.Params[0].Type().Underlying().(*types.Basic); !ok || bt.Info()&types.IsInteger == 0 {
+			continue
+		}
+		eachInstr(g, func(in ssa.Instruction) {
+			// returns are spilled because of the deferred reset of val: look at the stores of the number into the result cell
+			var val ssa.Value
+			var at ssa.Instruction
+			switch x := in.(type) {
+			case *ssa.Store:
+				val, at = x.Val, x
+			case *ssa.Return:
+				if len(x.Results) > 0 {
+					val, at = x.Results[0], x
+				}
+			}
+			isNum := false
+			for _, nv := range nums {
+				if val == nv {
+					isNum = true
+				}
+			}
+			if !isNum {
+				return
+			}
+			n++
+			checked := false
+			for cond := range cc.of(at) {
+				if x, _, _, ok := cmpInt(cond); ok {
+					for _, nv := range nums {
+						if x == nv {
+							checked = true
+						}
+					}
+				}
+			}
+			r.check(checked, fmt.Sprintf("%s:optional numeric value #%d is range-checked", relName(fn), n), at.Pos(), g,
+				"under a comparison of the number with a constant", "the converted number is returned whatever its sign")
+		})
+	}
+	r.floor("returns of an optional numeric value", n, 1)
+}
+
 func round11(c *Ctx, r *Report, prop string) {
 	switch prop {
 	case "C01":
@@ -1418,6 +1497,7 @@ func round11(c *Ctx, r *Report, prop string) {
 		c16r22(c, r)
 	case "C17":
 		c17r30(c, r)
+		c17r31(c, r)
 		c16r22(c, r) // an argument vector with trailing garbage behind an action argument is rejected
 	case "C19":
 		c19r18(c, r)
